@@ -96,13 +96,21 @@ def castAll (ext : Ext) : List Py → VR (List Num)
     | .nonfinite => .error .nonfinite
     | .crash k => .error (.py k)
 
+/-- `isinstance(item, (Blank, type(None)))`: a BLANK object (a reference to a never-stored cell) or
+    Python `None` (the padding of a ragged Array) -/
+def isBlankObj : Py → Bool
+  | .none => true
+  | .xBlank => true
+  | _ => false
+
 /-- `_validate(Tuple[XlNumber], args, name)` inside `validate_args`: flatten, raise the leftmost
-    error item (returned by the wrapper), cast every other item and drop what cannot be cast. -/
+    error item (returned by the wrapper), skip the blank items (`Blank` / `None`: an empty cell is
+    not a zero), cast every other item and drop what cannot be cast. -/
 def validateNumbers (ext : Ext) (args : List Arg) : VR (List Num) :=
   let vs := flatArgs args
   match firstError vs with
   | some c => .error (.xl c)
-  | none => castAll ext vs
+  | none => castAll ext (vs.filter fun v => !isBlankObj v)
 
 /-! ### the bodies over the validated tuple of `Number`s -/
 
